@@ -11,7 +11,9 @@ add_edges_from judged without assuming an order of processing, see the batches s
 and ``["consult", k]`` keep an object returned by the graph and look at it later, see the held views section;
 with ``"foreign": {...}`` instead of ``"n"`` the initial object is the conversion of a networkx graph (or of something
 else) described by its node list and edge list, and ``["reconvert", ...]`` replaces the object by a conversion in the
-middle of the history, see the conversion section).
+middle of the history, see the conversion section; ``["fork", method, param]`` adds a copy of the object to the live
+objects of the history and ``["switch", k]`` addresses the following operations to live object k, see the copies
+section).
 run_case replays the log on
 a fresh object and on the model of vlib/graphmodel.py (vertex count + Python set of
 edges) and compares every public view with the model after every step; at the end
@@ -72,6 +74,13 @@ ASSUMPTIONS = [
     "the node attribute 'bipartite' is accepted as 0/1 (documented), False/True (equal to 0/1) and '0'/'1' (what a "
     "GML/DOT reader delivers, accepted by the tree); 2, -1, 0.5, 'left', '', '2', None, [0] or no attribute must give "
     "ValueError (documented); 0.0/1.0 are not generated",
+    "copies (operations fork / switch): copy.deepcopy, pickle (protocols 0..5), to_networkx + from_networkx / normalize "
+    "and writeGraph + readGraph through StringIO (kthlist, dimacs / matrix, gml, dot) must give an independent object "
+    "equal to the original in every view; copy.copy is Python's shallow copy (the classes define no __copy__): it shares "
+    "the adjacency tables and the edge set with the original by design while the counters are private, so objects that "
+    "share tables are only required to agree while none of them is changed (calls without effect included) and all but "
+    "the changed one are dropped at the first change; gray: a DirectedGraph with a loop may be refused (ValueError) by "
+    "from_networkx / readGraph; the name of the graph is not compared",
     "gray: a self-loop in a networkx graph given to DirectedGraph is kept (is_dag() False) or refused with ValueError, "
     "as for add_edge; a conversion is expected to leave its argument as it was (nodes, attributes, edges)",
 ]
@@ -127,16 +136,45 @@ def run_case(case):
     ops = case['ops']
     held = []
     looked_last = False
+    # the live objects of the history (see the copies section): the operations are addressed to objs[cur]
+    S = {'G': G, 'M': M, 'held': held, 'group': 0, 'alive': True, 'how': 'the initial object', 'born': -1,
+         'parent': None, 'changes': 0, 'parent_changes': 0}
+    objs = [S]
+    groups = 1
     for i, op in enumerate(ops):
+        if op[0] == 'fork':
+            labels |= _fork(objs, S, op, i, head, groups)
+            groups += 1
+            looked_last = False
+            continue
+        if op[0] == 'switch':
+            T = objs[op[1] % len(objs)]
+            if not T['alive']:
+                labels.add('switch-to-a-retired-object')
+                continue
+            if T is not S:
+                labels.add('switched')
+                if looked_last:
+                    gm.check_views(G, M, "{} at step {}".format(head, i))
+                    looked_last = False
+            S = T
+            G, M, held = S['G'], S['M'], S['held']
+            continue
+        many = len(objs) > 1
+        me = " on object {} ({})".format(objs.index(S), S['how']) if many else ''
         if op[0] in ('hold', 'consult'):
-            ctx = "{} at step {} {}".format(head, i, _show(op))
+            ctx = "{} at step {} {}{}".format(head, i, _show(op), me)
             labels |= _hold(G, M, op, held, i, ctx) if op[0] == 'hold' else _consult(G, M, op, held, i, ctx)
             looked_last = True
             continue
         if op[0] == 'reconvert':
             # the history goes on on the object obtained by converting a networkx graph built from the model
-            ctx = "{} after step {} {}".format(head, i, _show(op))
+            ctx = "{} after step {} {}{}".format(head, i, _show(op), me)
             G = _reconvert(G, M, op, ctx)
+            if G is not S['G']:
+                S['G'] = G
+                S['group'] = groups          # a new object: it shares nothing with shallow copies of the former one
+                groups += 1
             del held[:]                      # the objects held so far belong to the former object
             labels.update(('reconverted', 'reconverted-' + op[1]))
             converted_edges = set(M.E)
@@ -147,8 +185,9 @@ def run_case(case):
             labels.add('operation-not-offered')
             continue
         looked_last = False
-        ctx = "{} after step {} {}".format(head, i, _show(op))
+        ctx = "{} after step {} {}{}".format(head, i, _show(op), me)
         before = len(M.E)
+        state_before = (M.n, set(M.E)) if many else None
         if op[0] == 'add_batch':
             got = _apply_batch(G, M, op, ctx)
             if 'batch-refused' in got:
@@ -179,14 +218,27 @@ def run_case(case):
             h['events'] |= got & _HELD_EVENTS
             if h['mode'] == 'eager':
                 labels |= _check_held(G, M, h, i, ctx, full=False)
+        if many:
+            labels |= _after_step_on_one(objs, S, state_before, got, i, ctx)
         if i % 8 == 7 and i != len(ops) - 1:
             gm.check_conversions(G, M, ctx, nxp)
     if looked_last:
         # looking at a held object is not an update
         gm.check_views(G, M, "{} at the end of {} steps".format(head, len(ops)))
-    gm.check_conversions(G, M, "{} at the end of {} steps".format(head, len(ops)), nxp)
-    for k, h in enumerate(held):
-        labels |= _check_held(G, M, h, len(ops), "{} at the end of {} steps".format(head, len(ops)), full=True)
+    for k, T in enumerate(objs):
+        if not T['alive']:
+            continue
+        end = "{} at the end of {} steps".format(head, len(ops))
+        if len(objs) > 1:
+            end += ", object {} ({})".format(k, T['how'])
+            if T is not S:
+                gm.check_views(T['G'], T['M'], end)
+        gm.check_conversions(T['G'], T['M'], end, nxp)
+        for h in T['held']:
+            labels |= _check_held(T['G'], T['M'], h, len(ops), end, full=True)
+    if len(objs) > 1:
+        labels |= _fork_labels(objs)
+        M = max((T['M'] for T in objs if T['alive']), key=lambda m: m.inserted_total)
     if M.kind == 'directed' and M.E and M.is_dag():
         labels.add('dag-at-the-end')
     if M.kind == 'directed' and M.E and not M.is_dag():
@@ -209,11 +261,220 @@ def _show(op):
         return "hold {}{} ({})".format(op[1], '({})'.format(op[2]) if op[1] in _HOLD_WITH_ARG else '()', op[3])
     if op[0] == 'consult':
         return "consult held object {}".format(op[1])
+    if op[0] == 'fork':
+        return "fork by {}".format(_fork_how(op[1], op[2], None))
+    if op[0] == 'switch':
+        return "switch to object {}".format(op[1])
     if op[0] == 'reconvert':
         return "G = {}(a networkx {} built from the model, labels {}*i{:+d}{})".format(
             op[1], 'multigraph with every edge twice' if op[5] else 'graph', op[2], op[3],
             ', inserted in reverse' if op[4] else '')
     return "{}({})".format(op[0], ','.join(map(str, op[1:])))
+
+
+# ---------------------------------------------------------------------------
+# copies: another way to obtain a graph object, at any point of a history; the object and its copies then live on
+#
+#   ["fork", method, param]   copy the object the operations are addressed to at this moment; the copy becomes the
+#                             live object number 1, 2, 3 of the history (at most MAX_OBJS objects, a fork beyond is
+#                             skipped); the operations still go to the same object as before
+#   ["switch", k]             from now on the operations (updates, hold, consult, reconvert, fork) are addressed to the
+#                             live object number k modulo the number of objects
+#
+#   method 'deepcopy'   copy.deepcopy(G)                                  param odd: the pair (G, G.edges()) is copied /
+#          'pickle'     pickle.loads(pickle.dumps(G, protocol=param % 6))  pickled instead and the copied view is kept
+#                                                                         as a held view of the copy ((param // 6) odd)
+#          'networkx'   cls.from_networkx(G.to_networkx()) (param even) / cls.normalize(G.to_networkx()) (param odd)
+#          'file'       writeGraph(G, StringIO, type, format); readGraph(StringIO(text), type, format): format =
+#                       FORK_FORMATS[cls][param % 8] (kthlist, dimacs / matrix, gml, seldom dot), type 'dag' instead of
+#                       'digraph' when (param // 8) is odd and every edge of the model goes upwards
+#          'copy'       copy.copy(G)
+#
+# What is demanded: the copy is another object of the same class, every view of the copy equals the model of the
+# original at that moment, and the original is as it was.  From then on each object has its own model: after every
+# step every view of EVERY live object is compared with its own model (an update of one never shows in another), held
+# views stay views of the object they were obtained from, and at the end the networkx conversions of every live
+# object are checked.  copy.copy is different: the classes define no __copy__, so Python's shallow copy shares the
+# adjacency tables and the edge set with the original by design while the counters are private; what is demanded
+# from the objects that share tables (a group) is only what holds and is reasonable: they show the same graph as
+# long as none of them is changed, and calls that change nothing (refused calls, duplicates, removal of an absent
+# edge, update_vertex_number not above n) change nothing in any of them; the first call that changes one member of a
+# group retires the other members (they are not looked at any more), the changed one goes on.
+# Gray: a graph with a loop (DirectedGraph) may be refused with ValueError by from_networkx / readGraph, as add_edge
+# may; the fork then gives nothing and its number is never live.
+
+MAX_OBJS = 4
+FORK_METHODS = ('deepcopy', 'pickle', 'networkx', 'file', 'copy')
+FORK_FORMATS = {
+    'Graph': ('kthlist', 'dimacs', 'gml', 'kthlist', 'dimacs', 'gml', 'kthlist', 'dot'),
+    'DirectedGraph': ('kthlist', 'dimacs', 'gml', 'kthlist', 'dimacs', 'gml', 'kthlist', 'dot'),
+    'BipartiteGraph': ('kthlist', 'matrix', 'gml', 'kthlist', 'matrix', 'gml', 'kthlist', 'dot'),
+}
+FORK_TYPES = {'Graph': 'simple', 'DirectedGraph': 'digraph', 'BipartiteGraph': 'bipartite'}
+
+
+def _fork_how(method, param, clsname):
+    if method == 'deepcopy':
+        return 'copy.deepcopy((G, G.edges()))[0]' if param % 2 else 'copy.deepcopy(G)'
+    if method == 'pickle':
+        return 'pickle.loads(pickle.dumps({}, protocol={})){}'.format(
+            '(G, G.edges())' if (param // 6) % 2 else 'G', param % 6, '[0]' if (param // 6) % 2 else '')
+    if method == 'networkx':
+        return '{}(G.to_networkx())'.format(VIAS[param % 2])
+    if method == 'file':
+        if clsname is None:
+            return 'writeGraph + readGraph through StringIO (format number {}{})'.format(
+                param % 8, ', as dag if it is one' if (param // 8) % 2 else '')
+        return 'writeGraph + readGraph through StringIO, format {}'.format(FORK_FORMATS[clsname][param % 8])
+    if method == 'copy':
+        return 'copy.copy(G)'
+    raise ValueError("unknown fork method {!r}".format(method))
+
+
+def _fork(objs, S, op, step, head, group):
+    """One more live object: a copy of S.  -> labels.  Raises Violation."""
+    import copy
+    import io
+    import pickle
+    method, param = op[1], op[2]
+    G, M = S['G'], S['M']
+    clsname = M.clsname
+    cls = gm.graph_class(clsname)
+    how = _fork_how(method, param, clsname)
+    src = objs.index(S)
+    ctx = "{} at step {}, object {} = {} of object {}".format(head, step, len(objs), how, src)
+    if len(objs) >= MAX_OBJS:
+        return set(['fork-beyond-the-limit-skipped'])
+    labels = set(['forked', 'fork:' + method])
+    view = None
+    loops = M.kind == 'directed' and any(u == v for (u, v) in M.E)
+
+    def do():
+        if method == 'deepcopy':
+            if param % 2:
+                return copy.deepcopy((G, G.edges()))
+            return copy.deepcopy(G), None
+        if method == 'pickle':
+            if (param // 6) % 2:
+                return pickle.loads(pickle.dumps((G, G.edges()), protocol=param % 6))
+            return pickle.loads(pickle.dumps(G, protocol=param % 6)), None
+        if method == 'copy':
+            return copy.copy(G), None
+        if method == 'networkx':
+            return getattr(cls, VIAS[param % 2])(G.to_networkx()), None
+        fmt = FORK_FORMATS[clsname][param % 8]
+        gtype = FORK_TYPES[clsname]
+        if gtype == 'digraph' and (param // 8) % 2 and M.is_dag():
+            gtype = 'dag'
+            labels.add('fork-file-as-dag')
+        labels.add('fork-file:' + fmt)
+        import cnfgen.graphs as cg
+        out = io.StringIO()
+        cg.writeGraph(G, out, gtype, fmt)
+        return cg.readGraph(io.StringIO(out.getvalue()), gtype, fmt), None
+
+    try:
+        H, view = do()
+    except ValueError as e:
+        if not exception_in_tree(e):
+            raise
+        if loops and method in ('networkx', 'file'):
+            # gray: a loop may be refused; this number is never live
+            objs.append({'G': None, 'M': None, 'held': [], 'group': group, 'alive': False, 'how': how, 'born': step,
+                         'parent': src, 'changes': 0, 'parent_changes': S['changes']})
+            return set(['fork-refused-because-of-a-loop'])
+        raise Violation("{}: raised ValueError({}) [{}] | model: {}".format(ctx, e, short_tb(e), M.describe()))
+    except Violation:
+        raise
+    except Exception as e:   # noqa
+        if method in ('deepcopy', 'pickle', 'copy') or exception_in_tree(e):
+            # copy / pickle machinery walking over the attributes of the object: a failure is the object's
+            raise Violation("{}: raised {}({}) [{}] | model: {}".format(
+                ctx, type(e).__name__, e, short_tb(e), M.describe())) from e
+        raise
+    if not isinstance(H, cls):
+        raise Violation("{}: gives a {} instead of a {}".format(ctx, type(H).__name__, clsname))
+    if H is G:
+        raise Violation("{}: gives the object itself, not a copy".format(ctx))
+    M2 = M.copy()
+    M2.inserted_total = M.inserted_total
+    T = {'G': H, 'M': M2, 'held': [], 'group': S['group'] if method == 'copy' else group, 'alive': True, 'how': how,
+         'born': step, 'parent': src, 'changes': 0, 'parent_changes': S['changes']}
+    gm.check_views(H, M2, ctx + ": the copy")
+    gm.check_views(G, M, ctx + ": the object copied, afterwards")
+    if view is not None:
+        N = (M.L + M.R) if M.kind == 'bipartite' else M.n
+        T['held'].append({'kind': 'edges', 'mode': 'lazy', 'step': step, 'n0': N, 'E0': set(M.E), 'events': set(),
+                          'looks': 0, 'spent': False, 'what': 'the copy of edges() that came with the copy', 'E_last': None,
+                          'obj': view})
+        labels.add('fork-with-a-copied-view')
+        labels |= _check_held(H, M2, T['held'][0], step, ctx, full=True)
+    for h in S['held']:
+        if h['kind'] in ('edges', 'edges_succ'):
+            labels.add('fork-while-a-view-is-held')
+            labels |= _check_held(G, M, h, step, ctx + ": the object copied, afterwards", full=False)
+    objs.append(T)
+    if src != 0:
+        labels.add('fork-of-a-copy')
+    if M.E:
+        labels.add('fork-with-edges')
+    if M.kind == 'simple' and M.n and not any(M.n in e for e in M.E):
+        labels.add('fork-with-last-vertex-isolated')
+    if loops:
+        labels.add('fork-with-a-loop')
+    if sum(1 for o in objs if o['alive']) >= 3:
+        labels.add('three-live-objects')
+    return labels
+
+
+def _after_step_on_one(objs, S, state_before, got, step, ctx):
+    """An update call was made on S (already compared with its model): the other live objects are compared with
+    THEIR models; objects sharing tables with S (shallow copies) are retired when the call changed S."""
+    labels = set()
+    M = S['M']
+    changed = state_before != (M.n, M.E)
+    if changed:
+        S['changes'] += 1
+    k = objs.index(S)
+    for j, T in enumerate(objs):
+        if T is S or not T['alive']:
+            continue
+        if T['group'] == S['group']:
+            if changed:
+                T['alive'] = False
+                labels.add('shallow-copy-retired-at-first-change')
+                continue
+            labels.add('call-without-effect-in-a-group-of-shallow-copies')
+        where = "{} / object {} ({}), which the call was not made on".format(ctx, j, T['how'])
+        gm.check_views(T['G'], T['M'], where, networkx_too=(step % 4 == 0))
+        for h in T['held']:
+            if h['mode'] == 'eager':
+                labels |= _check_held(T['G'], T['M'], h, step, where, full=False)
+        if changed:
+            labels.add('change-of-one-object-others-checked')
+            if T['M'].E != M.E or T['M'].n != M.n or T['M'].L != M.L:
+                labels.add('objects-differ')
+    if changed and S['parent'] is not None:
+        labels.add('copy-changed')
+        labels.add('copy-' + sorted(got & set(['inserted', 'removal', 'growth']) or ['changed'])[0])
+    if 'refused' in got and S['parent'] is not None:
+        labels.add('refused-call-on-a-copy')
+    if changed and any(T['parent'] == k and T['alive'] for T in objs):
+        labels.add('original-changed-after-the-fork')
+    return labels
+
+
+def _fork_labels(objs):
+    labels = set()
+    for T in objs:
+        if T['parent'] is None or not T['alive']:
+            continue
+        P = objs[T['parent']]
+        if T['changes'] and P['alive'] and P['changes'] > T['parent_changes']:
+            labels.add('both-changed-after-the-fork')
+            if T['M'].n is not None and T['M'].n != P['M'].n:
+                labels.add('copies-with-different-vertex-counts-at-the-end')
+    return labels
 
 
 # ---------------------------------------------------------------------------
@@ -766,10 +1027,13 @@ def _reconvert(G, M, op, ctx):
 
 WEIGHTS = {
     'Graph': ['add_edge'] * 9 + ['remove_edge'] * 4 + ['add_edges_from'] * 3 + ['update_vertex_number'] * 3 +
-             ['hold'] * 2 + ['consult'] * 3 + ['grow-and-join', 'reconvert'],
-    'DirectedGraph': (['add_edge'] * 7 + ['add_edges_from'] * 2 + ['hold', 'consult', 'consult']) * 2 + ['reconvert'],
-    'BipartiteGraph': (['add_edge'] * 7 + ['add_edges_from'] * 2 + ['hold', 'consult', 'consult']) * 2 + ['reconvert'],
+             ['hold'] * 2 + ['consult'] * 3 + ['grow-and-join', 'reconvert'] + ['fork'] * 3 + ['switch'] * 4,
+    'DirectedGraph': (['add_edge'] * 7 + ['add_edges_from'] * 2 + ['hold', 'consult', 'consult']) * 2 + ['reconvert'] +
+                     ['fork'] * 3 + ['switch'] * 4,
+    'BipartiteGraph': (['add_edge'] * 7 + ['add_edges_from'] * 2 + ['hold', 'consult', 'consult']) * 2 + ['reconvert'] +
+                      ['fork'] * 3 + ['switch'] * 4,
 }
+_F_METHOD = st.sampled_from(FORK_METHODS + ('deepcopy', 'pickle', 'file'))
 _B_BIG = st.integers(0, 10 ** 6)           # positions and choices are drawn as a big integer modulo the number of options
 _BOOL = st.booleans()
 _P_MODE = st.sampled_from(['legal', 'legal', 'legal', 'present', 'any', 'any'])
@@ -833,8 +1097,32 @@ def _draw_ops(draw, clsname, M, max_steps):
     if max_steps not in _N_STEPS:
         _N_STEPS[max_steps] = st.integers(0, max_steps)
     nsteps = draw(_N_STEPS[max_steps])
+    # the live objects as the generator sees them: [model, group, alive]; M is the model of the addressed one
+    slots = [[M, 0, True]]
+    cur = 0
+    with_forks = draw(_B_BIG) % 3 == 0           # a third of the histories have copies
     for _ in range(nsteps):
         name = draw(_W_OP[clsname])
+        if name in ('fork', 'switch') and not with_forks:
+            name = 'add_edge'
+        before = (M.n, len(M.E), hash(frozenset(M.E))) if len(slots) > 1 else None
+        if name == 'fork':
+            if len(slots) < MAX_OBJS:
+                method = draw(_F_METHOD)
+                ops.append(['fork', method, draw(_B_BIG) % 48])
+                slots.append([M.copy(), slots[cur][1] if method == 'copy' else len(slots), True])
+                if draw(_BOOL):
+                    cur = len(slots) - 1
+                    ops.append(['switch', cur])
+                    M = slots[cur][0]
+            continue
+        if name == 'switch':
+            live = [k for k in range(len(slots)) if slots[k][2]]
+            if len(live) > 1:
+                cur = live[draw(_B_BIG) % len(live)]
+                ops.append(['switch', cur])
+                M = slots[cur][0]
+            continue
         if name == 'add_edge':
             u, v = _draw_pair(draw, M)
             ops.append(['add_edge', u, v])
@@ -881,6 +1169,13 @@ def _draw_ops(draw, clsname, M, max_steps):
                 if M.classify(u, v) == 'bad':
                     break
                 _gen_insert(M, u, v)
+        if before is not None and before != (M.n, len(M.E), hash(frozenset(M.E))):
+            # a change retires the shallow copies that share the tables of the object (see the copies section)
+            for k, sl in enumerate(slots):
+                if k != cur and sl[1] == slots[cur][1]:
+                    sl[2] = False
+        if name == 'reconvert':
+            slots[cur][1] = 100 + len(ops)
     return ops
 
 
@@ -940,6 +1235,8 @@ def _enumerate(clsname):
                     c.update(s)
                     yield c
         for c in _view_histories(clsname, tier):
+            yield c
+        for c in _fork_histories(clsname, tier):
             yield c
         for c in _foreign_sweep(clsname, tier):
             yield c
@@ -1015,6 +1312,62 @@ def _view_histories(clsname, tier):
                                         'lazy'])
                             ops += scripts[(a + b + 1) % len(scripts)](z)
                             ops += [['consult', 1], ['consult', 0]]
+                        c = {'cls': clsname, 'ops': ops, 'nx': {'mul': 1 + k % 2, 'add': k % 3 - 1, 'rev': bool(k % 4 >= 2)}}
+                        c.update(s)
+                        yield c
+
+
+def _fork_variants(clsname):
+    """(method, param): every way of copying; every pickle protocol, with and without a copied view; every format"""
+    out = [('deepcopy', 0), ('deepcopy', 1), ('copy', 0), ('networkx', 0), ('deepcopy', 2), ('networkx', 1), ('deepcopy', 3)]
+    out += [('pickle', p + 6 * (p % 2)) for p in range(6)]
+    out += [('file', f) for f in (0, 1, 2, 7)]
+    if clsname == 'DirectedGraph':
+        out += [('file', 8 + f) for f in (0, 1, 2)]
+    return out
+
+
+def _fork_histories(clsname, tier):
+    """[edge] script-a, hold edges(), FORK, script-b on the copy, script-c on the original, consult the view of the
+    original, [a second fork - of the copy or of the original -, script-b on the newest, script-a on the first copy,
+    script-c on the original]: every pair (a, b) of the update scripts of the held-view histories from every start;
+    the ways of copying in rotation (thorough: every way for every pair)."""
+    scripts, starts, pre = _view_scripts(clsname)
+    variants = _fork_variants(clsname)
+    k = 0
+    for s in starts:
+        for with_pre in (0, 1):
+            for a in range(len(scripts)):
+                for b in range(len(scripts)):
+                    k += 1
+                    c3 = (a + b + 1) % len(scripts)
+                    for v in (range(len(variants)) if tier == 'thorough' else [k % len(variants)]):
+                        z0 = dict(s)
+                        ops = [list(o) for o in pre] if with_pre else []
+                        ops += scripts[a](z0)
+                        ops.append(['hold', 'edges', 0, ('lazy', 'eager')[k % 2]])
+                        ops.append(['fork', variants[v][0], variants[v][1]])
+                        z1 = dict(z0)
+                        ops.append(['switch', 1])
+                        ops += scripts[b](z1)
+                        ops.append(['switch', 0])
+                        ops += scripts[c3](z0)
+                        ops.append(['consult', 0])
+                        if k % 2:
+                            w = variants[(v * 7 + k // 2) % len(variants)]
+                            if k % 4 == 1:
+                                ops.append(['switch', 1])
+                                z2 = dict(z1)
+                            else:
+                                z2 = dict(z0)
+                            ops.append(['fork', w[0], w[1]])
+                            ops.append(['switch', 2])
+                            ops += scripts[b](z2)
+                            ops.append(['switch', 1])
+                            ops += scripts[a](z1)
+                            ops.append(['consult', 0])
+                            ops.append(['switch', 0])
+                            ops += scripts[c3](z0)
                         c = {'cls': clsname, 'ops': ops, 'nx': {'mul': 1 + k % 2, 'add': k % 3 - 1, 'rev': bool(k % 4 >= 2)}}
                         c.update(s)
                         yield c
@@ -1272,6 +1625,30 @@ _CONV_LABELS = ['converted', 'via:from_networkx', 'via:normalize', 'nx:Graph', '
                 'converted-then-duplicate-of-a-converted-edge', 'converted-then-refused', 'reconverted',
                 'reconverted-from_networkx', 'reconverted-normalize']
 _NUMBERING_LABELS = ['numbering:sorted', 'numbering:digit-strings', 'numbering:unsortable']
+FORK_RULE = ("COPIES: a third of the generated histories and an enumerated family also contain `fork` steps (copy the object "
+             "addressed at that moment: copy.deepcopy(G), copy.deepcopy((G, G.edges()))[0] with the copied view kept as a held "
+             "view of the copy, pickle.loads(pickle.dumps(..)) with every protocol 0..5 with and without such a view, "
+             "from_networkx / normalize of G.to_networkx(), writeGraph + readGraph through StringIO as kthlist, dimacs / "
+             "matrix, gml, seldom dot (DirectedGraph: also as type 'dag' when it is one), copy.copy(G)) and `switch k` steps "
+             "(the following operations - updates, batches, refused calls, growth, removals, hold / consult, reconvert, "
+             "another fork - go to live object k); at most 4 objects live in a history; enumerated: from every start [an "
+             "edge] script a, hold edges(), fork, script b on the copy, script c on the original, consult, and every other "
+             "case a second fork (of the copy or of the original) followed by scripts on all three, for every pair (a, b) "
+             "of the update scripts, the ways of copying in rotation (thorough: each of the 17-20 ways for every pair). "
+             "Oracle: a fork gives another object of the same class whose every view equals the model at that moment and "
+             "leaves the original as it was; then each object has its own model and after EVERY step every view of EVERY "
+             "live object is compared with its own model (an update of one never shows in another; eager held views of "
+             "each object too), at the end every live object passes the networkx conversions and its held views are "
+             "consulted. copy.copy shares the tables of the original by construction of Python's shallow copy (no "
+             "__copy__ in the classes): objects sharing tables must only agree as long as none is changed, calls without "
+             "effect (refused, duplicate, absent removal, no growth) must leave all of them as they are, and the first "
+             "call that changes one retires the others. ")
+_FORK_LABELS = ['forked', 'fork:deepcopy', 'fork:pickle', 'fork:networkx', 'fork:file', 'fork:copy', 'switched',
+                'copy-changed', 'original-changed-after-the-fork', 'both-changed-after-the-fork', 'objects-differ',
+                'refused-call-on-a-copy', 'three-live-objects', 'fork-of-a-copy', 'fork-with-a-copied-view',
+                'fork-while-a-view-is-held', 'fork-with-edges', 'shallow-copy-retired-at-first-change',
+                'call-without-effect-in-a-group-of-shallow-copies', 'change-of-one-object-others-checked',
+                'fork-file:kthlist', 'fork-file:gml', 'fork-file:dot']
 _VIEW_LABELS = ['view-held', 'view-consulted', 'held:edges', 'held:nbrs', 'held-eager', 'held-lazy',
                 'held-edge-view-consulted', 'consult-after-insertion', 'consult-after-batch', 'consult-after-refused-call',
                 'looked-at-again-after-a-change', 'view-held-at-0-vertices']
@@ -1283,7 +1660,7 @@ SUBCHECKS = [
                   "add_edges_from (half of them with a forbidden pair in the middle, list or iterator) / "
                   "update_vertex_number(-1..n+3, capped at 12), arguments legal, already present (either "
                   "orientation) or anything in -1..n+2; plus every history of length <=2 (thorough <=3) over 39 "
-                  "operations from n=0,1,2. " + COMMON_RULE + VIEW_RULE + FOREIGN_RULE +
+                  "operations from n=0,1,2. " + COMMON_RULE + VIEW_RULE + FOREIGN_RULE + FORK_RULE +
                   "Non-trivial: >=5 successful insertions and a removal after a growth.",
              required_labels=['refused', 'refused-nothing-changed', 'duplicate', 'duplicate-other-orientation',
                               'removal', 'removal-other-orientation', 'remove-absent', 'growth',
@@ -1294,13 +1671,15 @@ SUBCHECKS = [
              ['held:vertices', 'consult-after-growth', 'consult-after-removal', 'consult-sees-edge-among-new-vertices',
               'consult-sees-edges-of-a-graph-held-at-0-vertices', 'consult-same-count-other-edges'] + _CONV_LABELS +
              _NUMBERING_LABELS + ['foreign-selfloop-refused', 'converted-then-growth', 'converted-then-removal',
-                                  'converted-then-removal-of-a-converted-edge']),
+                                  'converted-then-removal-of-a-converted-edge'] + _FORK_LABELS +
+             ['copy-growth', 'copy-removal', 'copy-inserted', 'copies-with-different-vertex-counts-at-the-end',
+              'fork-with-last-vertex-isolated', 'fork-file:dimacs']),
     SubCheck('directed', run_case, strategy=_strategy('DirectedGraph'), enumerate_cases=_enumerate('DirectedGraph'),
              quick=4000, thorough=16000,
              rule="DirectedGraph(n), n=0..6, histories of 0..50 (thorough 0..200) calls of add_edge / "
                   "add_edges_from with forward edges, back edges, loops, duplicates and out-of-range arguments; "
                   "plus every history of length <=2 (thorough <=3) over 28 operations from n=0..3. " + COMMON_RULE + VIEW_RULE +
-                  FOREIGN_RULE +
+                  FOREIGN_RULE + FORK_RULE +
                   "is_dag() must be True exactly when every inserted edge has src < dest (also after refused back "
                   "edges). Non-trivial: >=5 successful insertions.",
              required_labels=['refused', 'refused-nothing-changed', 'duplicate', 'back-edge', 'loop',
@@ -1308,12 +1687,13 @@ SUBCHECKS = [
                               'batch-bad-in-the-middle', 'initial-size-0', 'networkx-relabelled',
                               '5-insertions', 'refused-zero', 'bad-initial-size'] + _VIEW_LABELS +
              ['held:edges_succ', 'held:vertices'] + _CONV_LABELS + _NUMBERING_LABELS +
-             ['foreign-class-refused', 'converted-loop']),
+             ['foreign-class-refused', 'converted-loop'] + _FORK_LABELS +
+             ['fork-with-a-loop', 'fork-file-as-dag', 'fork-file:dimacs']),
     SubCheck('bipartite', run_case, strategy=_strategy('BipartiteGraph'), enumerate_cases=_enumerate('BipartiteGraph'),
              quick=4000, thorough=16000,
              rule="BipartiteGraph(L,R), L,R=0..5, histories of 0..50 (thorough 0..200) calls of add_edge / "
                   "add_edges_from, left argument in -1..L+2 and right argument in -1..R+2; plus every history of "
-                  "length <=2 (thorough <=3) over 18 operations from L,R in 0..2. " + COMMON_RULE + VIEW_RULE + FOREIGN_RULE +
+                  "length <=2 (thorough <=3) over 18 operations from L,R in 0..2. " + COMMON_RULE + VIEW_RULE + FOREIGN_RULE + FORK_RULE +
                   "Non-trivial: >=5 successful insertions.",
              required_labels=['refused', 'refused-nothing-changed', 'duplicate', 'swapped-sides-refused',
                               'batch-ok', 'batch-refused', 'batch-bad-in-the-middle', 'initial-size-0',
@@ -1321,7 +1701,7 @@ SUBCHECKS = [
                               'bad-initial-size'] + _VIEW_LABELS + ['held:parts'] + _CONV_LABELS +
              ['foreign-selfloop-refused', 'foreign-edge-inside-a-side-refused', 'foreign-bad-colour-refused',
               'foreign-missing-colour-refused', 'colours:int', 'colours:bool', 'colours:str',
-              'converted-edge-given-right-left', 'converted-one-empty-side']),
+              'converted-edge-given-right-left', 'converted-one-empty-side'] + _FORK_LABELS + ['fork-file:matrix']),
 ]
 
 
